@@ -19,7 +19,7 @@ func init() {
 			"Identity monitors on the same operands: A.I=A, I.A=A (I also given with a leading batch dimension of 1), (A.B)^T = B^T.A^T, Dot(a,b)=SumAlong_last(a*b), Transpose(Transpose(x))=x. " +
 			"Non-trivial: the result has >= 2 elements; distinct = (op, operand shapes).",
 		Assumptions: []string{"At/Shape are the observation channel", "integer data keep every partial sum exactly representable; a second pass with random reals uses relative tolerance 1e-12"},
-		FloorQuick:  1500, FloorThor: 20000,
+		FloorQuick:  20000, FloorThor: 100000,
 		Run: runC04,
 	})
 }
@@ -244,7 +244,7 @@ func batchPairs(dst []int) [][2][]int {
 
 func runC04(c *fw.Ctx) {
 	// ---- MatMul ----
-	maxBatchRank := c.Pick(2, 3)
+	maxBatchRank := c.Pick(3, 4)
 	for _, dst := range Shapes(0, maxBatchRank, 3) {
 		for _, pr := range batchPairs(dst) {
 			for m := 1; m <= 3; m++ {
@@ -257,7 +257,7 @@ func runC04(c *fw.Ctx) {
 			}
 		}
 	}
-	for i := 0; i < c.Pick(1500, 15000); i++ { // sampled: batch rank 3-4 (operand rank up to 6), real-valued pass
+	for i := 0; i < c.Pick(4000, 40000); i++ { // sampled: batch rank 3-4 (operand rank up to 6), real-valued pass
 		c.Case(func(k *fw.K) {
 			dst := RandShape(k.Rng, 3, 4, 3)
 			prs := batchPairs(dst)
@@ -267,7 +267,7 @@ func runC04(c *fw.Ctx) {
 	}
 
 	// ---- Dot ----
-	for _, dst := range Shapes(1, c.Pick(3, 4), 3) {
+	for _, dst := range Shapes(1, c.Pick(4, 5), 3) {
 		last := dst[len(dst)-1]
 		for _, pr := range batchPairs(dst) {
 			sa, sb := pr[0], pr[1]
@@ -277,7 +277,7 @@ func runC04(c *fw.Ctx) {
 			c.Case(func(k *fw.K) { c04Dot(k, sa, sb, true) })
 		}
 	}
-	for i := 0; i < c.Pick(800, 8000); i++ {
+	for i := 0; i < c.Pick(3000, 30000); i++ {
 		c.Case(func(k *fw.K) {
 			dst := RandShape(k.Rng, 4, 6, 3)
 			last := dst[len(dst)-1]
